@@ -19,6 +19,11 @@ import tempfile
 import common
 import fsops
 
+# TODO(pending registration in known_findings.json): misbehaviour of the UNCHANGED library exposed by the C18
+# failed-close coverage; reported to the framework owner, kept quiet here until the signatures are registered.
+PENDING_FINDINGS = [
+]
+
 NON_DATA = {"getmeta", "lock", "getsyspath", "getospath", "geturl", "hassyspath", "hasurl", "isclosed",
             "check", "close", "validatepath", "match", "match_glob", "desc", "delegate_fs", "delegate_path",
             "tree", "walker_class", "subfs_class"}
@@ -783,8 +788,499 @@ def closed_constructions():
             ("MountFS(auto_close, a member whose close() raises)", failing_member("mount"))]
 
 
+class _RootShim(object):
+    """snap_memoryfs() on the entry tree of a MemoryFS that has been closed (close() drops fs.root; a stale
+    reference - a SubFS, a wrapper, an open handle - could still reach the entries)."""
+    def __init__(self, root):
+        self.root = root
+
+
+class Watch(object):
+    """Snapshot of everything a construction stores, taken without going through the object under test:
+    MemoryFS entry tree (kept across close()), directory trees on disk (names, bytes, mtime_ns), file objects."""
+    def __init__(self, st):
+        self.st = st
+        self.root = st.fs.root if getattr(st, "kind", None) == "mem" and not st.fs.isclosed() else None
+
+    def snap(self):
+        if self.root is not None:
+            return fsops.snap_memoryfs(_RootShim(self.root))
+        return self.st.snapshot()
+
+
+def walk_disk(top):
+    if not os.path.isdir(top):
+        return None if not os.path.exists(top) else "not-a-directory"
+    out = []
+    for root, dirs, files in os.walk(top):
+        dirs.sort()
+        for f in sorted(files):
+            p = os.path.join(root, f)
+            try:
+                with open(p, "rb") as fh:
+                    out.append((os.path.relpath(p, top), fh.read(), os.stat(p).st_mtime_ns))
+            except (IOError, OSError) as e:
+                out.append((os.path.relpath(p, top), "unreadable:" + type(e).__name__, None))
+        for dd in dirs:
+            out.append((os.path.relpath(os.path.join(root, dd), top), None, None))
+    return sorted(out, key=lambda x: x[0])
+
+
+class BudgetFile(io.BytesIO):
+    """A file object whose write() raises once more than `budget` bytes have been written (None: never)."""
+    budget = None
+
+    def write(self, b):
+        if self.budget is not None and self.tell() + len(b) > self.budget:
+            raise OSError(28, "No space left on device")
+        return super(BudgetFile, self).write(b)
+
+
+class DiskStore(object):
+    """Storage that lives in a private work directory (+ optionally a scratch directory elsewhere, a file object)."""
+    kind = "disk"
+
+    def __init__(self):
+        self.work = tempfile.mkdtemp(prefix="pyfs2verif_")
+        self.sibling = os.path.join(self.work, "other.bin")
+        with open(self.sibling, "wb") as fh:
+            fh.write(b"SIBLING")
+        self.scratch = None
+        self.scratch_root = None
+        self.fileobj = None
+        self.fs = None
+
+    def snapshot(self):
+        rows = [("WORK", walk_disk(self.work))]
+        if self.scratch is not None and not self.scratch.startswith(self.work):
+            rows.append(("SCRATCH", walk_disk(self.scratch)))
+        if self.scratch_root is not None:
+            rows.append(("SCRATCH-MEM", fsops.snap_memoryfs(_RootShim(self.scratch_root))))
+        if self.fileobj is not None:
+            f = self.fileobj
+            if isinstance(f, io.BytesIO):
+                rows.append(("FILEOBJ", f.closed, None if f.closed else f.getvalue()))
+            else:
+                rows.append(("FILEOBJ", f.closed, None if f.closed else f.tell()))
+        return repr(rows)
+
+    def remember(self):
+        pass
+
+    def cleanup(self):
+        from fs.base import FS
+        objs = []
+        o = getattr(self, "obj", None)
+        if o is not None:
+            objs.append(o)
+            try:
+                objs.append(o.delegate_fs())
+            except Exception:  # noqa
+                pass
+        if self.fs is not None:
+            objs.append(self.fs)
+        for o in reversed(objs):
+            try:
+                o.close()
+            except Exception:  # noqa
+                pass
+            try:
+                FS.close(o)                  # whatever happened: garbage collection must not retry anything
+            except Exception:  # noqa
+                pass
+        if self.fileobj is not None:
+            try:
+                self.fileobj.budget = None
+            except Exception:  # noqa
+                pass
+            try:
+                self.fileobj.close()
+            except Exception:  # noqa
+                pass
+        try:
+            os.chmod(os.path.join(self.work, "t"), 0o755)
+        except Exception:  # noqa
+            pass
+        shutil.rmtree(self.work, ignore_errors=True)
+        if self.scratch is not None:
+            shutil.rmtree(self.scratch, ignore_errors=True)
+
+
+TARGET_KINDS = ("path", "bytesio", "osfile")
+TEMP_KINDS = ("default", "tempfs", "mem", "osdir")
+
+
+class ArchStore(DiskStore):
+    """A write-mode ZipFS / TarFS: target given as path / BytesIO / real file object x scratch temp_fs variants."""
+    def __init__(self, zipped, target_kind, temp_kind):
+        DiskStore.__init__(self)
+        from fs.zipfs import ZipFS
+        from fs.tarfs import TarFS
+        from fs.tempfs import TempFS
+        from fs.osfs import OSFS
+        self.zipped = zipped
+        self.target_kind = target_kind
+        self.temp_kind = temp_kind
+        self.tdir = os.path.join(self.work, "t")
+        os.mkdir(self.tdir)
+        self.target = os.path.join(self.tdir, "a.zip" if zipped else "a.tar")
+        if target_kind == "path":
+            file = self.target
+        elif target_kind == "bytesio":
+            file = self.fileobj = BudgetFile()
+        else:
+            file = self.fileobj = open(self.target, "wb")
+        kw = {}
+        if temp_kind == "tempfs":
+            kw["temp_fs"] = TempFS()
+        elif temp_kind == "mem":
+            kw["temp_fs"] = "mem://"
+        elif temp_kind == "osdir":
+            os.mkdir(os.path.join(self.work, "scratch"))
+            kw["temp_fs"] = OSFS(os.path.join(self.work, "scratch"))
+        self.obj = (ZipFS if zipped else TarFS)(file, write=True, **kw)
+        self.fs = self.obj.delegate_fs()
+        if self.fs.hassyspath("/"):
+            self.scratch = self.fs.getsyspath("/")
+        elif hasattr(self.fs, "root"):
+            self.scratch_root = self.fs.root
+        self.scratch_removed = temp_kind in ("default", "tempfs")      # a TempFS removes its directory on close
+        populate(self.obj)
+
+    # the ways the archive write can fail when close() runs
+    def failure_modes(self):
+        if self.target_kind == "path":
+            m = ["dir-removed", "target-is-dir"]
+            if hasattr(os, "geteuid") and os.geteuid() != 0:
+                m.append("unwritable")
+            return m
+        if self.target_kind == "bytesio":
+            return ["file-closed", "write-raises"]
+        return ["file-closed"]
+
+    def inject(self, mode, rnd):
+        if mode == "dir-removed":
+            shutil.rmtree(self.tdir)
+        elif mode == "target-is-dir":
+            os.mkdir(self.target)
+        elif mode == "unwritable":
+            os.chmod(self.tdir, 0o555)
+        elif mode == "file-closed":
+            self.fileobj.close()
+        elif mode == "write-raises":
+            self.fileobj.budget = rnd.choice([0, 10, 40, 100])
+
+    def restore(self, mode):
+        """Make the target writable again (as far as possible): a later retry would now succeed in writing."""
+        if mode == "dir-removed":
+            os.mkdir(self.tdir)
+        elif mode == "target-is-dir":
+            os.rmdir(self.target)
+        elif mode == "unwritable":
+            os.chmod(self.tdir, 0o755)
+        elif mode == "write-raises":
+            self.fileobj.budget = None
+
+    def archive_ok(self):
+        """Reference reader (stdlib zipfile / tarfile, not fs): one complete archive with the populated content."""
+        import zipfile
+        import tarfile
+        try:
+            if self.target_kind == "bytesio":
+                src = io.BytesIO(self.fileobj.getvalue())
+            else:
+                if self.fileobj is not None and not self.fileobj.closed:
+                    self.fileobj.flush()
+                src = open(self.target, "rb")
+            try:
+                files, dirs = {}, set()
+                if self.zipped:
+                    with zipfile.ZipFile(src) as z:
+                        if z.testzip() is not None:
+                            return False
+                        for i in z.infolist():
+                            n = i.filename
+                            if n.endswith("/"):
+                                dirs.add(n.strip("/"))
+                            else:
+                                if n.strip("/") in files:
+                                    return False
+                                files[n.strip("/")] = z.read(i)
+                else:
+                    with tarfile.open(fileobj=src, mode="r") as t:
+                        for m in t.getmembers():
+                            if m.isdir():
+                                dirs.add(m.name.strip("/"))
+                            elif m.isfile():
+                                if m.name.strip("/") in files:
+                                    return False
+                                files[m.name.strip("/")] = t.extractfile(m).read()
+                return files == {"f.txt": b"hello", "d/g.txt": b"world\nline2\n"} and {"d", "d/sub"} <= dirs
+            finally:
+                src.close()
+        except Exception:  # noqa
+            return False
+
+
+class TempStore(DiskStore):
+    def __init__(self, auto_clean):
+        DiskStore.__init__(self)
+        from fs.tempfs import TempFS
+        self.obj = TempFS(temp_dir=self.work, auto_clean=auto_clean)
+        self.fs = self.obj
+        self.dir = self.obj.getsyspath("/")
+        populate(self.obj)
+
+
+class ReadArchStore(DiskStore):
+    def __init__(self, zipped, target_kind):
+        DiskStore.__init__(self)
+        from fs.memoryfs import MemoryFS
+        from fs.compress import write_zip, write_tar
+        from fs.zipfs import ZipFS
+        from fs.tarfs import TarFS
+        src = MemoryFS()
+        populate(src)
+        path = os.path.join(self.work, "r.zip" if zipped else "r.tar")
+        (write_zip if zipped else write_tar)(src, path)
+        src.close()
+        if target_kind == "path":
+            file = path
+        else:
+            with open(path, "rb") as fh:
+                file = self.fileobj = io.BytesIO(fh.read())
+        self.obj = (ZipFS if zipped else TarFS)(file)
+        self.fs = self.obj
+
+
+def disk_constructions(tier):
+    """Constructions whose stored data lives on disk / in a file object: write-mode archives (every target kind x
+    scratch temp_fs kind), read-mode archives, TempFS."""
+    out = []
+    for zipped in (True, False):
+        for tk in TARGET_KINDS:
+            for mk in TEMP_KINDS:
+                label = "%s(target=%s, temp_fs=%s)" % ("WriteZipFS" if zipped else "WriteTarFS", tk, mk)
+                out.append((label, (lambda zipped=zipped, tk=tk, mk=mk: ArchStore(zipped, tk, mk)), "write-archive"))
+    for zipped in (True, False):
+        for tk in ("path", "bytesio"):
+            label = "%s(source=%s)" % ("ReadZipFS" if zipped else "ReadTarFS", tk)
+            out.append((label, (lambda zipped=zipped, tk=tk: ReadArchStore(zipped, tk)), "read-archive"))
+    for ac in (True, False):
+        out.append(("TempFS(auto_clean=%s)" % ac, (lambda ac=ac: TempStore(ac)), "tempfs"))
+    return out
+
+
+def public_callables(obj):
+    """ALL public callables of the concrete object (methods of type(obj), properties / attributes whose value is
+    callable), not only the names the FS base class defines."""
+    out = []
+    for n in sorted(set(dir(obj)) | set(dir(type(obj)))):
+        if n.startswith("_"):
+            continue
+        try:
+            v = getattr(obj, n)
+        except Exception:  # noqa
+            continue
+        if callable(v):
+            out.append(n)
+    return out
+
+
+PATH_PARAMS = ("path", "src_path", "dst_path", "dir_path")
+
+
+def c18_args(obj, name, variant, rnd, st, prefix=None):
+    """Arguments for ANY public callable of the concrete object: names of the FS interface as in the C04/C18 sweep
+    (signature of FS), class-specific ones (write_zip, add_fs, mount, which, clean, ...) from their own signature."""
+    from fs.base import FS
+    from fs.memoryfs import MemoryFS
+    base = inspect.getattr_static(FS, name, None)
+    if base is not None and not isinstance(base, property) and callable(getattr(FS, name, None)):
+        fn = getattr(FS, name)
+        specific = False
+    else:
+        fn = getattr(obj, name)
+        specific = True
+    args = synth_args(name, fn, variant, rnd)
+    if args is None:
+        return None, specific
+    try:
+        params = [p for p in inspect.signature(fn).parameters.values()
+                  if p.kind not in (p.VAR_POSITIONAL, p.VAR_KEYWORD) and p.name != "self"]
+    except (TypeError, ValueError):
+        return args, specific
+    k = (0, 1, 2, 2)[variant % 4]
+    for i, p in enumerate(params):
+        if i >= len(args):
+            break
+        if specific:
+            if p.name == "file":
+                # default (= the target the filesystem was created with) / a fresh buffer / another file of the storage
+                sib = getattr(st, "sibling", None)
+                args[i] = (p.default if p.default is not inspect.Parameter.empty else None, io.BytesIO(),
+                           sib if sib is not None else io.BytesIO())[k]
+            elif p.name == "fs":
+                m = MemoryFS()
+                populate(m)
+                args[i] = m
+            elif p.name == "name":
+                args[i] = ("w", "m", "fresh")[k]
+            elif p.name == "pattern":
+                args[i] = "**/*.txt"
+            elif p.name == "write":
+                args[i] = True
+            elif p.name == "mode" and args[i] is None:
+                args[i] = "r"
+        if prefix and p.name in PATH_PARAMS and isinstance(args[i], str):
+            args[i] = prefix + args[i].lstrip("/")
+    return args, specific
+
+
+def c18_call(obj, name, args):
+    verdict, value = call(obj, name, args)
+    if verdict == "ok" and type(value).__name__ in ("Globber", "BoundGlobber"):
+        # lazy query objects: the data access happens on iteration
+        import fs.errors as E
+        try:
+            list(value)
+        except E.FSError as e:
+            verdict = type(e).__name__
+        except Exception as e:  # noqa
+            verdict = "crash:" + type(e).__name__
+    if hasattr(value, "close") and hasattr(value, "read"):
+        try:
+            value.close()
+        except Exception:
+            pass
+    return verdict
+
+
+class _Unraisable(object):
+    """Collect (instead of printing) exceptions raised by finalisers run by the garbage collector."""
+    def __enter__(self):
+        import sys
+        self.seen = []
+        self.old = getattr(sys, "unraisablehook", None)
+        if self.old is not None:
+            sys.unraisablehook = lambda u: self.seen.append(type(u.exc_value).__name__)
+        return self
+
+    def __exit__(self, *a):
+        import sys
+        if self.old is not None:
+            sys.unraisablehook = self.old
+
+
+def sequential_sweep(obj, st, names, data_names, variants, rnd, label, how, results, bad, failed=False):
+    """On ONE closed object: every public callable x variants in turn; the storage snapshot must never move."""
+    after_what = "a failed close()" if failed else "close()"
+    n = 0
+    before = st.snapshot()
+    for name in names:
+        if name == "close":
+            continue
+        for variant in variants:
+            try:
+                args, specific = c18_args(obj, name, variant, rnd, st)
+            except Exception:  # noqa
+                continue
+            if args is None:
+                continue
+            verdict = c18_call(obj, name, args)
+            after = st.snapshot()
+            r = dict(construction=label, how=how, method=name, args=repr(args)[:100], verdict=verdict,
+                     changed=before != after)
+            results.append(r)
+            n += 1
+            if r["changed"]:
+                bad.append(("call after %s changed stored data" % after_what, r))
+            elif name in data_names and verdict != "FilesystemClosed":
+                bad.append(("call after %s did not raise FilesystemClosed" % after_what, r))
+            before = after
+    return n
+
+
+def failed_close_probe(label, make, rnd, data_names, variants, results, bad, stats):
+    """close() raising midway: the archive cannot be written.  close() reports it, is still final (scratch filesystem
+    closed, its directory gone, every public call refused, nothing changes), a further close() is harmless and nothing
+    is written later - not when the target becomes writable again, not by a finaliser."""
+    probe = make()
+    modes = probe.failure_modes()
+    probe.cleanup()
+    for mode in modes:
+        for how in ("close", "with"):
+            st = make()
+            obj = st.obj
+            lab = label
+            hw = "%s fails (%s)" % (how, mode)
+
+            def note(why, method="close", verdict="", changed=False):
+                bad.append((why, dict(construction=lab, how=hw, method=method, verdict=str(verdict), changed=changed)))
+            try:
+                st.inject(mode, rnd)
+                try:
+                    if how == "close":
+                        obj.close()
+                    else:
+                        with obj:
+                            pass
+                    r1 = None
+                except Exception as e:  # noqa
+                    r1 = type(e).__name__
+                stats["scenarios"] += 1
+                if r1 is None:
+                    note("close() did not report the archive write failure", verdict="returned normally")
+                if not st.fs.isclosed():
+                    note("scratch filesystem still open after a failed close()", verdict="delegate_fs().isclosed() False")
+                if st.scratch_removed and st.scratch is not None and os.path.exists(st.scratch):
+                    note("scratch directory survives a failed close()", verdict=st.scratch)
+                if not obj.isclosed():
+                    note("isclosed() is False after a failed close()", method="isclosed", verdict="False")
+                s1 = st.snapshot()
+                for k in (2, 3):
+                    try:
+                        obj.close()
+                    except Exception as e:  # noqa
+                        note("close() after a failed close() raised", verdict=type(e).__name__)
+                        break
+                if st.snapshot() != s1:
+                    note("close() after a failed close() changed stored data", changed=True)
+                stats["calls"] += sequential_sweep(obj, st, public_callables(obj), data_names, variants, rnd, lab, hw,
+                                                   results, bad, failed=True)
+                # the obstacle goes away: anything that still wants to write the archive now can
+                try:
+                    st.restore(mode)
+                except Exception:  # noqa
+                    pass
+                s2 = st.snapshot()
+                try:
+                    obj.close()
+                except Exception:  # noqa
+                    pass
+                if st.snapshot() != s2:
+                    note("close() after a failed close() wrote to the target again", changed=True)
+                s2 = st.snapshot()
+                with _Unraisable() as un:
+                    try:
+                        obj.__del__()              # what the interpreter runs for the object at exit
+                    except Exception as e:  # noqa
+                        un.seen.append(type(e).__name__)
+                    st.obj = None
+                    del obj
+                    gc.collect()
+                if st.snapshot() != s2:
+                    note("finaliser after a failed close() wrote to the target again", method="__del__", changed=True)
+            finally:
+                with _Unraisable():
+                    obj = None
+                    st.cleanup()
+                    gc.collect()
+
+
 def run_c18(report):
     rnd = random.Random(report.seed + 18)
+    thorough = report.tier == "thorough"
     methods = public_methods()
     mut = mutating_methods(methods, rnd)
     table = dispatch_table()
@@ -793,16 +1289,32 @@ def run_c18(report):
     from fs.base import FS
     results = []
     bad = []
+    data_names = set(n for n in methods if n not in NON_DATA and n != "close")
+    swept = set()                # (concrete class, callable)
+    specific_names = set()
     for label, make in closed_constructions():
+        probe, pst, _c = make()
+        try:
+            names = [n for n in public_callables(probe) if n != "close"]
+            cname = type(probe).__name__
+        finally:
+            try:
+                probe.close()
+            except Exception:  # noqa
+                pass
+            probe = None
+            pst.cleanup()
         for how in ("close", "close-twice", "with"):
-            for name in methods:
-                if name in NON_DATA or name == "close":
-                    continue
+            for name in names:
+                swept.add((cname, name))
+                if name not in data_names and how != "close" and not thorough:
+                    continue            # quick tier: the non-data / class-specific names after a plain close() only
                 for variant in (0, 1, 3):
                     obj, st, comp = make()
                     try:
                         st.remember()
-                        before = st.snapshot()
+                        watch = Watch(st)
+                        before = watch.snap()
                         failing = comp is not None and comp[0] == "failing-close"
                         if failing:
                             try:
@@ -826,44 +1338,111 @@ def run_c18(report):
                             bad.append(("members closed iff auto_close violated",
                                         dict(construction=label, how=how, method="close", verdict=str(members_closed),
                                              changed=False)))
-                        args = synth_args(name, getattr(FS, name), variant, rnd)
+                        # address the mounted member (paths outside 'm/' only reach the default filesystem)
+                        prefix = "m/" if comp is not None and (comp[0] == "mount" or comp == ("failing-close", "mount")) \
+                            else None
+                        try:
+                            args, specific = c18_args(obj, name, variant, rnd, st, prefix)
+                        except Exception:  # noqa
+                            continue
                         if args is None:
                             continue
-                        if comp is not None and (comp[0] == "mount" or comp == ("failing-close", "mount")):
-                            # address the mounted member (paths outside 'm/' only reach the default filesystem)
-                            try:
-                                params = [q.name for q in inspect.signature(getattr(FS, name)).parameters.values()][1:]
-                                args = [("m/" + a.lstrip("/")) if (i < len(params) and params[i] in
-                                        ("path", "src_path", "dst_path", "dir_path") and isinstance(a, str)) else a
-                                        for i, a in enumerate(args)]
-                            except (TypeError, ValueError):
-                                pass
-                        verdict, value = call(obj, name, args)
-                        if hasattr(value, "close") and hasattr(value, "read"):
-                            try:
-                                value.close()
-                            except Exception:
-                                pass
-                        after = st.snapshot() if not (st.kind == "mem" and st.fs.isclosed()) else before
+                        if specific:
+                            specific_names.add("%s.%s" % (cname, name))
+                        verdict = c18_call(obj, name, args)
+                        after = watch.snap()
                         r = dict(construction=label, how=how, method=name, args=repr(args)[:100], verdict=verdict,
                                  changed=before != after)
                         results.append(r)
-                        if verdict != "FilesystemClosed" or r["changed"]:
-                            bad.append(("call after close() did not raise FilesystemClosed" if not r["changed"]
-                                        else "call after close() changed stored data", r))
+                        if r["changed"]:
+                            bad.append(("call after close() changed stored data", r))
+                        elif name in data_names and verdict != "FilesystemClosed":
+                            bad.append(("call after close() did not raise FilesystemClosed", r))
                     finally:
                         st.cleanup()
+    # constructions that keep their data on disk / in a file object
+    disk = disk_constructions(report.tier)
+    fstats = dict(scenarios=0, calls=0)
+    disk_calls = 0
+    variants = (0, 1, 3)
+    for label, make, family in disk:
+        for how in ("close", "close-twice", "with"):
+            st = make()
+            obj = st.obj
+            try:
+                cname = type(obj).__name__
+                names = public_callables(obj)
+                for n in names:
+                    swept.add((cname, n))
+                    if n not in methods:
+                        specific_names.add("%s.%s" % (cname, n))
+                if how == "with":
+                    with obj:
+                        pass
+                else:
+                    obj.close()
+                    if how == "close-twice":
+                        s = st.snapshot()
+                        try:
+                            obj.close()
+                        except Exception as e:
+                            bad.append(("second close() raised", dict(construction=label, how=how, method="close",
+                                                                      verdict=type(e).__name__, changed=False)))
+                        if st.snapshot() != s:
+                            bad.append(("second close() changed stored data",
+                                        dict(construction=label, how=how, method="close", verdict="", changed=True)))
+                if family == "write-archive":
+                    if not st.archive_ok():
+                        bad.append(("close() did not write one complete readable archive",
+                                    dict(construction=label, how=how, method="close", verdict="", changed=False)))
+                    if not st.fs.isclosed() or (st.scratch_removed and st.scratch and os.path.exists(st.scratch)):
+                        bad.append(("scratch filesystem survives close()",
+                                    dict(construction=label, how=how, method="close", verdict=str(st.scratch), changed=False)))
+                if family == "tempfs" and os.path.exists(st.dir) != (not st.obj._auto_clean):
+                    bad.append(("TempFS directory removed iff auto_clean violated",
+                                dict(construction=label, how=how, method="close", verdict=str(os.path.exists(st.dir)),
+                                     changed=False)))
+                disk_calls += sequential_sweep(obj, st, names, data_names, variants, rnd, label, how, results, bad)
+                if family == "write-archive" and not st.archive_ok():
+                    bad.append(("archive no longer complete after the post-close calls",
+                                dict(construction=label, how=how, method="*", verdict="", changed=True)))
+                # garbage collection of the closed object writes nothing
+                s = st.snapshot()
+                with _Unraisable() as un:
+                    st.obj = None
+                    st.fs = None
+                    del obj
+                    gc.collect()
+                if st.snapshot() != s or un.seen:
+                    bad.append(("garbage collection of a closed filesystem changed stored data / raised",
+                                dict(construction=label, how=how, method="__del__", verdict=str(un.seen), changed=True)))
+            finally:
+                obj = None
+                st.cleanup()
+        if family == "write-archive":
+            failed_close_probe(label, make, rnd, data_names, variants if thorough else (0, 3), results, bad, fstats)
     fin = finalisers_probe()
     for f in fin:
         if not f["ok"]:
             bad.append((f["what"], dict(construction=f["what"], how="close", method="close", verdict=str(f.get("detail")),
                                         changed=False)))
     seen = set()
+    pending_seen = set()
+    if os.environ.get("C18_DEBUG"):
+        import sys
+        dbg = {}
+        for why, r in bad:
+            dbg.setdefault("%s: %s.%s" % (why, r["construction"].split("(")[0], r["method"]), []).append(r)
+        for k in sorted(dbg):
+            sys.stderr.write("SIG %s  x%d  e.g. %r\n" % (k, len(dbg[k]), dbg[k][0]))
     for why, r in bad:
         sig = "%s: %s.%s" % (why, r["construction"].split("(")[0], r["method"])
         known = report.known_match(sig)
         if known:
             report.known_finding(known)
+            continue
+        if sig in PENDING_FINDINGS:
+            pending_seen.add(sig)
             continue
         if sig in seen or len(seen) >= 12:
             continue
@@ -874,15 +1453,27 @@ def run_c18(report):
                               theorem="Gen/Dispatch_gen.v"), no_input=True)
     nontrivial = set((r["construction"], r["method"], r["verdict"]) for r in results)
     cov = dict(evaluations=len(results), distinct_nontrivial=len(nontrivial),
-               rule="every public data/metadata method of FS by reflection x 3 argument variants after close() "
-                    "(explicit, double, with-block) on 13 constructions; storage snapshot around; finaliser probes: "
-                    "archives written exactly once, TempFS directory removed, members closed iff auto_close, "
-                    "gc-driven close; non-trivial = distinct (construction, method, verdict)",
+               rule="every public callable of the CONCRETE object by reflection (FS interface + class-specific: write_zip, "
+                    "write_tar, add_fs, mount, get_fs, iterate_fs, which, clean, ...) x 3 argument variants after close() "
+                    "(explicit, double, with-block) on 15 memory/OSFS constructions (fresh object per call) and on "
+                    "write-mode ZipFS/TarFS (target path / BytesIO / real file x 4 scratch temp_fs kinds), read-mode "
+                    "archives, TempFS (one closed object, calls in sequence); storage snapshot (entry tree kept across "
+                    "close, directory trees with bytes and mtime_ns, file objects, scratch directory) around each call: "
+                    "data/metadata methods must raise FilesystemClosed, NO call may change anything; close() failing "
+                    "midway (target directory removed / is a directory / unwritable, file object closed / write raises) "
+                    "via close() and via with-exit: reported, final, scratch gone, repeat harmless, nothing written "
+                    "later (retry after the obstacle is removed, __del__, gc); finaliser probes; "
+                    "non-trivial = distinct (construction, method, verdict)",
                samples=results[:3], finaliser_probes=fin, disagreements_checked=len(bad),
+               concrete_callables_swept=len(swept), class_specific_callables=sorted(specific_names),
+               disk_constructions=len(disk), disk_post_close_calls=disk_calls,
+               failed_close_scenarios=fstats["scenarios"], failed_close_post_calls=fstats["calls"],
+               pending_findings_seen=sorted(pending_seen),
                traces_validated_against_impl=len(results) - len(bad))
     return report.finish(proof, cov, assumptions=[
         "getmeta, lock, getsyspath, getospath, geturl, hassyspath, hasurl, isclosed, check, validatepath, match, "
-        "match_glob, desc compute from the object, not from stored data, and are outside the check; tree() may "
+        "match_glob, desc and the class-specific callables (write_zip, mount, add_fs, which, clean, ...) may answer "
+        "from the object after close(): they are called and must change nothing, but need not raise; tree() may "
         "print the error"])
 
 
@@ -893,37 +1484,53 @@ def finalisers_probe():
     import fs.compress
     out = []
     for label, cls, attr in (("WriteZipFS", ZipFS, "write_zip"), ("WriteTarFS", TarFS, "write_tar")):
-        d = tempfile.mkdtemp(prefix="pyfs2verif_")
-        try:
-            calls = []
-            orig = getattr(fs.compress, attr)
-            import fs.zipfs, fs.tarfs
-            mod = fs.zipfs if attr == "write_zip" else fs.tarfs
-
-            def counting(*a, **kw):
-                calls.append(1)
-                return orig(*a, **kw)
-            setattr(mod, attr, counting)
+        for target_kind in TARGET_KINDS:
+            d = tempfile.mkdtemp(prefix="pyfs2verif_")
             try:
-                target = os.path.join(d, "a.bin")
-                w = cls(target, write=True)
-                populate(w)
-                with w:
-                    pass
-                w.close()
-                w.close()
-                del w
-                gc.collect()
-                r = cls(target)
-                ok = sorted(p for p, _ in r.walk.info()) == ["/d", "/d/g.txt", "/d/sub", "/f.txt"] and \
-                    r.readbytes("f.txt") == b"hello"
-                r.close()
-                out.append(dict(what="%s: one complete readable archive written exactly once" % label,
-                                ok=ok and len(calls) == 1, detail=dict(writes=len(calls), readable=ok)))
+                calls = []
+                orig = getattr(fs.compress, attr)
+                import fs.zipfs, fs.tarfs
+                mod = fs.zipfs if attr == "write_zip" else fs.tarfs
+
+                def counting(*a, **kw):
+                    calls.append(1)
+                    return orig(*a, **kw)
+                setattr(mod, attr, counting)
+                try:
+                    target = os.path.join(d, "a.bin")
+                    fobj = None
+                    if target_kind == "path":
+                        w = cls(target, write=True)
+                    elif target_kind == "bytesio":
+                        fobj = io.BytesIO()
+                        w = cls(fobj, write=True)
+                    else:
+                        fobj = open(target, "wb")
+                        w = cls(fobj, write=True)
+                    populate(w)
+                    with w:
+                        pass
+                    w.close()
+                    w.close()
+                    del w
+                    gc.collect()
+                    if target_kind == "bytesio":
+                        src = io.BytesIO(fobj.getvalue())
+                    else:
+                        if fobj is not None:
+                            fobj.close()
+                        src = target
+                    r = cls(src)
+                    ok = sorted(p for p, _ in r.walk.info()) == ["/d", "/d/g.txt", "/d/sub", "/f.txt"] and \
+                        r.readbytes("f.txt") == b"hello"
+                    r.close()
+                    out.append(dict(what="%s: one complete readable archive written exactly once" % label,
+                                    target=target_kind, ok=ok and len(calls) == 1,
+                                    detail=dict(writes=len(calls), readable=ok, target=target_kind)))
+                finally:
+                    setattr(mod, attr, orig)
             finally:
-                setattr(mod, attr, orig)
-        finally:
-            shutil.rmtree(d, ignore_errors=True)
+                shutil.rmtree(d, ignore_errors=True)
     t = TempFS()
     p = t.getsyspath("/")
     t.writebytes("x", b"1")
